@@ -40,6 +40,8 @@ type topo struct {
 	Rnd string `json:"rnd_connector_matrix,omitempty"`
 	// reference verdict
 	Invalid string `json:"invalid,omitempty"`
+	// DupExt: service::extensions lists one extension twice
+	DupExt bool `json:"extension_listed_twice,omitempty"`
 	// ErrFlavour: what a failing stub's error wraps besides its own message (0 nothing, 1 a deadline error of its own,
 	// 2 a cancellation of its own, 3 a permanent consumer error)
 	ErrFlavour int `json:"failing_components_error_flavour,omitempty"`
@@ -188,6 +190,11 @@ func genTopo(tp *simkit.Tape, small bool) topo {
 		if tp.Chance(1, 2) {
 			t.ExtDeps[t.Exts[i]] = append(t.ExtDeps[t.Exts[i]], t.Exts[tp.Draw(i)])
 		}
+	}
+	if ne > 0 && tp.Chance(1, 8) {
+		// service::extensions names one extension twice (no validation objects): still one lifetime per extension
+		t.Exts = append(t.Exts, t.Exts[tp.Draw(ne)])
+		t.DupExt = true
 	}
 	for i := 0; i < 4; i++ {
 		for j := 0; j < 4; j++ {
